@@ -512,3 +512,78 @@ func witnessBucketCacheRace(c *core.Ctx, db string) error {
 	c.NonTrivial()
 	return r.err
 }
+
+// witnessSchemaFlushFails: a field is created, PrepareFlush, the kv commit of the schema family FAILS,
+// the ordinary retry flush succeeds. Nothing may be marked persisted by the failed flush: once the schema
+// object has left memory a new field must not get the first field's id.
+func witnessSchemaFlushFails(c *core.Ctx, db string) error {
+	r, err := newRunner(c, db, 1, 0)
+	if err != nil {
+		return err
+	}
+	defer r.close()
+	r.o.tag = "schema-flush-failed-"
+	mid, _ := r.metric(0, 0)
+	m := int(mid)
+	r.field(m, 1)
+	r.tagKey(m, 1)
+	r.mprepare()
+	r.mflushfails()
+	r.mflush() // the retry
+	r.mprepare()
+	r.mflush()
+	r.field(m, 2)
+	r.tagKey(m, 2)
+	r.field(m, 1)
+	r.reopen()
+	r.field(m, 3)
+	r.schema(m)
+	c.Branch("witness-schema-flush-fails")
+	c.NonTrivial()
+	return r.err
+}
+
+// witnessCompaction: two flushes, each with names in two buckets of every dictionary (two namespaces, two
+// metrics per namespace, two tag keys with the same tag values), then the level-0 compaction of every
+// family and a reopen: every name must still have its own id — in particular a name that exists in two
+// buckets (the same metric name in both namespaces, the same tag value under both tag keys).
+func witnessCompaction(c *core.Ctx, db string) error {
+	r, err := newRunner(c, db, 1, 0)
+	if err != nil {
+		return err
+	}
+	defer r.close()
+	r.o.tag = "compaction-"
+	round := func(base int) {
+		for ns := 0; ns < 2; ns++ {
+			for k := 0; k < 2; k++ {
+				id, ok := r.metric(ns, base+k)
+				if !ok {
+					continue
+				}
+				tk, _ := r.tagKey(int(id), k)
+				r.tagValue(int(tk), base)
+				r.tagValue(int(tk), base+1)
+				r.series(0, ns, base+k, int(id), []kv{{k, base}})
+			}
+		}
+		r.mprepare()
+		r.mflush()
+		r.iprepare(0)
+		r.iflush(0)
+	}
+	round(0)
+	round(2)
+	r.mcompact()
+	r.icompact(0)
+	r.reopen()
+	// names that exist in one bucket only, asked for in the other bucket: must be new ids of their own
+	r.metric(1, 0)
+	r.metric(0, 0)
+	round(4)
+	r.mcompact()
+	r.reopen()
+	c.Branch("witness-compaction")
+	c.NonTrivial()
+	return r.err
+}
